@@ -197,15 +197,49 @@ func shiftLoc(l Loc, off int) Loc {
 // ---------------------------------------------------------------------------------------------
 // reducer trigger simulation (known finding "join(range,point-at-its-end) drops the point")
 
-// pointAbsorbed reports whether joining the parts of some join node of l (nested joins flattened, as
-// LocationList.Push does) pushes a point p directly after a range whose exclusive end is p. In gts that
-// point is silently dropped although it denotes residue p, which the range does not contain
-// (pinned by TestLocationReduction: Join(Range(3,6), Point(6)) == Range(3,6)).
-func pointAbsorbed(l Loc) bool {
+// reduceSim mirrors what the constructors do to an unreduced AST (Join: flatten nested joins, drop
+// repeats, absorb sites, merge abutting ranges, re-join consecutive complements in reverse order; Order:
+// flatten nested orders; Complement of a complement unwraps) and reports whether, on the way, a point p was
+// pushed directly after a range whose exclusive end is p. In gts that point is silently dropped although it
+// denotes residue p, which the range does not contain (pinned by TestLocationReduction:
+// Join(Range(3,6), Point(6)) == Range(3,6)). The returned AST has the point dropped, like gts.
+func reduceSim(l Loc) (Loc, bool) {
 	switch l.K {
-	case "jn":
-		var last *Loc
+	case "co":
+		in, t := reduceSim(l.Parts[0])
+		if in.K == "co" {
+			return in.Parts[0], t
+		}
+		return lco(in), t
+	case "or":
 		trig := false
+		var flat []Loc
+		var add func(x Loc)
+		add = func(x Loc) {
+			if x.K == "or" {
+				for _, p := range x.Parts {
+					add(p)
+				}
+				return
+			}
+			r, t := reduceSim(x)
+			trig = trig || t
+			if r.K == "or" {
+				flat = append(flat, r.Parts...)
+				return
+			}
+			flat = append(flat, r)
+		}
+		for _, p := range l.Parts {
+			add(p)
+		}
+		if len(flat) == 1 {
+			return flat[0], trig
+		}
+		return Loc{K: "or", Parts: flat}, trig
+	case "jn":
+		trig := false
+		var list []Loc
 		var push func(x Loc)
 		push = func(x Loc) {
 			if x.K == "jn" {
@@ -214,21 +248,27 @@ func pointAbsorbed(l Loc) bool {
 				}
 				return
 			}
-			if x.K != "jn" && len(x.Parts) > 0 && pointAbsorbed(x) {
-				trig = true
+			if len(x.Parts) > 0 {
+				r, t := reduceSim(x)
+				trig = trig || t
+				if r.K == "jn" {
+					push(r)
+					return
+				}
+				x = r
 			}
-			if last == nil {
-				y := x
-				last = &y
+			if len(list) == 0 {
+				list = append(list, x)
 				return
 			}
+			last := &list[len(list)-1]
 			switch last.K {
 			case "bt":
-				if (x.K == "bt" || x.K == "pt" || x.K == "rg") && x.A == last.A {
-					if x.K != "bt" {
-						y := x
-						last = &y
-					}
+				if x.K == "bt" && x.A == last.A {
+					return
+				}
+				if (x.K == "pt" || x.K == "rg") && x.A == last.A {
+					*last = x
 					return
 				}
 			case "pt":
@@ -239,8 +279,7 @@ func pointAbsorbed(l Loc) bool {
 					return
 				}
 				if x.K == "rg" && x.A == last.A {
-					y := x
-					last = &y
+					*last = x
 					return
 				}
 			case "rg":
@@ -252,35 +291,43 @@ func pointAbsorbed(l Loc) bool {
 					return
 				}
 				if x.K == "rg" && x.A == last.B {
-					y := *last
-					y.B, y.P3 = x.B, x.P3
-					last = &y
+					last.B, last.P3 = x.B, x.P3
 					return
 				}
 			case "co":
 				if x.K == "co" {
-					inner := ljn(x.Parts[0], last.Parts[0])
-					if pointAbsorbed(inner) {
-						trig = true
-					}
-					y := lco(inner)
-					last = &y
+					inner, t := reduceSim(ljn(x.Parts[0], last.Parts[0]))
+					trig = trig || t
+					*last = lco(inner)
 					return
 				}
 			}
-			y := x
-			last = &y
+			list = append(list, x)
 		}
 		for _, p := range l.Parts {
 			push(p)
 		}
-		return trig
-	case "or", "co":
-		for _, p := range l.Parts {
-			if pointAbsorbed(p) {
-				return true
+		// Join repeats the reduction until the number of parts is stable
+		for n := len(list); n > 1; n = len(list) {
+			prev := list
+			list = nil
+			for _, p := range prev {
+				push(p)
+			}
+			if len(list) == n {
+				break
 			}
 		}
+		if len(list) == 1 {
+			return list[0], trig
+		}
+		return Loc{K: "jn", Parts: list}, trig
 	}
-	return false
+	return l, false
+}
+
+// pointAbsorbed reports whether reducing l drops a point after a range (see reduceSim).
+func pointAbsorbed(l Loc) bool {
+	_, t := reduceSim(l)
+	return t
 }
